@@ -173,12 +173,14 @@ def main(tier: str, only: dict | None = None) -> int:
         H = _W["H"]
         kind, s, *rest = only["case"].split("/")
         tier_ = only.get("tier", tier)
-        if kind != "t3":
+        if kind not in ("t3", "t4"):
             shapes, _ = c13.generate(4 if tier_ == "quick" else 5, 2)
             ch, rep = shapes[int(s[1:])]
             chl, repl = [list(c) for c in ch], list(rep)
         if kind == "t3":
             root = H.witness_graphs()[s]
+        elif kind == "t4":
+            root = H.stored_witnesses()["/".join([s, *rest])]
         elif kind == "t1":
             root, _, _ = H.build_t1(chl, repl, rest[0], seed=seed(),
                                     leaf=("mix" if rest[0].startswith("mixed") else
@@ -210,6 +212,17 @@ def main(tier: str, only: dict | None = None) -> int:
         for name, root in _W["H"].witness_graphs().items():
             records.append(_W["H"].export_analyses(root, _W["H"].Interner(), f"t3/{name}"))
             stats["graphs"] = stats.get("graphs", 0) + 1
+        # every node kind that can carry or delegate ImplStored does so, as interior
+        # node and as output (both values of include_outputs are always asked)
+        stored_kinds: dict[str, int] = {}
+        for name, root in _W["H"].stored_witnesses().items():
+            rec = _W["H"].export_analyses(root, _W["H"].Interner(), f"t4/{name}")
+            records.append(rec)
+            stats["graphs"] = stats.get("graphs", 0) + 1
+            for kd, st_ in zip(rec["kind"], rec["stored"]):
+                if st_:
+                    stored_kinds[kd] = stored_kinds.get(kd, 0) + 1
+        stats["stored_tagged_node_kinds"] = stored_kinds
         val = judge(run, records)
         mc["states"] += gen["states"]
         mc["transitions"] += gen["transitions"]
@@ -226,6 +239,7 @@ def main(tier: str, only: dict | None = None) -> int:
                 "non-trivial = some node has more than one child (sharing / multiplicity)",
         "exhaustive": True, "model_checking": mc, "graphs": stats.get("graphs", 0),
         "node_kinds": stats.get("kinds", {}), "edge_kinds": stats.get("ekinds", {}),
+        "stored_tagged_node_kinds": stats.get("stored_tagged_node_kinds", {}),
         "views": VIEWS, "tlc_runs": val.runs, "tlc_wall_s": round(val.wall, 1),
     })
     for r in records[:2]:
